@@ -19,6 +19,10 @@ pub struct Sixel {
     size: Size,
 }
 
+/// Largest image dimension (pixels) and repeat count accepted from a sixel stream: numbers in the stream must not be able to
+/// make the decoder allocate or loop without bound.
+const SIXEL_MAX_DIM: i32 = 0x4000;
+
 struct SixelParser {
     pos: Position,
     current_sixel_palette: Palette,
@@ -117,9 +121,9 @@ impl SixelParser {
                             Some(2) => {
                                 self.current_sixel_palette.set_color_rgb(
                                     self.current_sixel_color,
-                                    (self.parsed_numbers[2] * 255 / 100) as u8,
-                                    (self.parsed_numbers[3] * 255 / 100) as u8,
-                                    (self.parsed_numbers[4] * 255 / 100) as u8,
+                                    (self.parsed_numbers[2].min(100) * 255 / 100) as u8,
+                                    (self.parsed_numbers[3].min(100) * 255 / 100) as u8,
+                                    (self.parsed_numbers[4].min(100) * 255 / 100) as u8,
                                 );
                             }
                             Some(1) => {
@@ -154,6 +158,9 @@ impl SixelParser {
                     if self.parsed_numbers.len() < 2 || self.parsed_numbers.len() > 4 {
                         return Err(ParserError::InvalidPictureSize.into());
                     }
+                    if self.parsed_numbers.len() > 2 && (self.parsed_numbers[2] > SIXEL_MAX_DIM || self.parsed_numbers[self.parsed_numbers.len() - 1] > SIXEL_MAX_DIM) {
+                        return Err(ParserError::InvalidPictureSize.into());
+                    }
                     self.vertical_scale = self.parsed_numbers[0];
                     self.horizontal_scale = self.parsed_numbers[1];
                     if self.parsed_numbers.len() == 3 {
@@ -181,7 +188,7 @@ impl SixelParser {
                     self.parsed_numbers.push(parse_next_number(d, ch as u8));
                 } else {
                     if let Some(i) = self.parsed_numbers.first() {
-                        for _ in 0..*i {
+                        for _ in 0..(*i).min(SIXEL_MAX_DIM) {
                             self.parse_sixel_data(ch)?;
                         }
                     } else {
